@@ -353,6 +353,34 @@ theorem transient_error_is_memoised : ¬ HealthyNowSuffices := by
   revert this
   decide
 
+/-- "When the last use of an image is released, ALL its layers are dropped" — false for the
+current code: only the released layer is dropped; layers that were resolved along with it but
+never used stay cached (and `Done()` is never called on them), although the resolve status of the
+whole image is reset.  (`last_release_resets` is the statement that holds.) -/
+def LastReleaseDropsAllLayers : Prop :=
+  ∀ (T : Truth) (h : List Op) (r t : Nat), T.Functional → T.Injective →
+    cnt (run T init h) r t = some 1 → AllGone (run T init h) r t →
+    ∀ t', lay (release (run T init h) r t).1 r t' = none
+
+theorem T0_allGone : AllGone (run T0 init [.lookup hy 0 20, .use 0 20]) 0 20 := by
+  intro t' _
+  show get2 (run T0 init [.lookup hy 0 20, .use 0 20]).refcounter 0 t' = none
+  have : (run T0 init [.lookup hy 0 20, .use 0 20]).refcounter = [(0, [(20, 1)])] := by decide
+  rw [this]; simp [get2, inner, get_cons]; omega
+
+theorem unused_siblings_survive_last_release : ¬ LastReleaseDropsAllLayers := by
+  intro hs
+  have := hs T0 [.lookup hy 0 20, .use 0 20] 0 20 T0_functional T0_injective (by decide) T0_allGone 21
+  revert this
+  decide
+
+/-- the surviving sibling is the instance that the first lookup cached, it is not `Done`, and
+its resolve status is gone (so it would be resolved a second time and discarded as a duplicate). -/
+theorem unused_sibling_state_after_last_release :
+    lay (run T0 init [.lookup hy 0 20, .use 0 20, .release 0 20]) 0 21 = some ⟨1, 11, 21⟩ ∧
+    1 ∉ (run T0 init [.lookup hy 0 20, .use 0 20, .release 0 20]).done ∧
+    mem (run T0 init [.lookup hy 0 20, .use 0 20, .release 0 20]) 0 11 = none := by decide
+
 /-! ## Non-vacuity: the hypotheses are satisfiable and the conclusions are not trivial -/
 
 /-- the repaired `release` on the first witness history: the lookup succeeds, with a new instance. -/
@@ -369,12 +397,8 @@ example :
 /-- `last_release_resets`: its hypotheses hold after `lookup; use`. -/
 example : cnt (run T0 init [.lookup hy 0 20, .use 0 20]) 0 20 = some 1 ∧
     lay (run T0 init [.lookup hy 0 20, .use 0 20]) 0 20 = some ⟨0, 10, 20⟩ ∧
-    AllGone (run T0 init [.lookup hy 0 20, .use 0 20]) 0 20 := by
-  refine ⟨by decide, by decide, ?_⟩
-  intro t' ht
-  show get2 (run T0 init [.lookup hy 0 20, .use 0 20]).refcounter 0 t' = none
-  have : (run T0 init [.lookup hy 0 20, .use 0 20]).refcounter = [(0, [(20, 1)])] := by decide
-  rw [this]; simp [get2, inner, get_cons]; omega
+    AllGone (run T0 init [.lookup hy 0 20, .use 0 20]) 0 20 :=
+  ⟨by decide, by decide, T0_allGone⟩
 
 /-- `in_use_never_released`: a sibling is released to zero while layer 21 is in use. -/
 example : cnt (step T0 (run T0 init [.lookup hy 0 20, .use 0 20, .use 0 21]) (.release 0 20)).1 0 21
@@ -394,10 +418,10 @@ example : (release (run T0 init [.use 0 20]) 0 21).2 = .err ∧
     get (run T0 init [.use 0 20]).pool 0 = some 1 ∧
     get (release (run T0 init [.use 0 20]) 0 21).1.pool 0 = none := by decide
 
-/-- layers resolved along with the wanted one but never used stay cached after the image's last
-release (only the released layer is dropped; the resolve status of the whole image is reset). -/
+/-- `transient_error_is_memoised`, the history of the known finding: error, recovery, still failing. -/
 example :
-    lay (run T0 init [.lookup hy 0 20, .use 0 20, .release 0 20]) 0 21 = some ⟨1, 11, 21⟩ ∧
-    mem (run T0 init [.lookup hy 0 20, .use 0 20, .release 0 20]) 0 11 = none := by decide
+    (lookup T0 bad init 0 20).2 = .err ∧
+    (lookup T0 hy (run T0 init [.lookup bad 0 20]) 0 20).2 = .err ∧
+    mem (run T0 init [.lookup bad 0 20]) 0 10 = some .err := by decide
 
 end SV.Props.C16
